@@ -9,6 +9,7 @@ import (
 	"fmt"
 	"os"
 	"path/filepath"
+	"runtime"
 	"strings"
 	"sync"
 	"sync/atomic"
@@ -81,6 +82,9 @@ func one(w map[string]any, envs []container.Environment) map[string]any {
 	}
 	ctx, cancel := context.WithTimeout(context.Background(), ctxLimit)
 	defer cancel()
+	if w["precancel"] == true {
+		cancel() // the caller has given up before the call is made
+	}
 	var res runner.Result
 	args := strs(w["prog"])
 	t0 := time.Now()
@@ -225,6 +229,62 @@ func etxtbsy(iters int, withB bool) map[string]any {
 	return map[string]any{"outcomes": outcomes}
 }
 
+// threadRetire: an environment is built by a goroutine that is wired to its thread for a while; on the same thread a traced run
+// succeeds and another fails to start; the goroutine unwires and returns.  The environment belongs to nobody's run: it must live on.
+func threadRetire() map[string]any {
+	out := map[string]any{}
+	var env container.Environment
+	work := func(done chan struct{}) {
+		defer close(done)
+		var err error
+		if env, err = hx.NewEnv(scratch, nil); err != nil {
+			out["harness_err"] = err.Error()
+			return
+		}
+		lim := runner.Limit{TimeLimit: 5 * time.Second, MemoryLimit: 1 << 30}
+		good := (&ptrace.Runner{Args: []string{hx.Target(), "exit", "0"}, Env: []string{}, WorkDir: "/", Limit: lim, Seccomp: hx.AllowAll(), Handler: allowAll{}}).Run(context.Background())
+		bad := (&ptrace.Runner{Args: []string{"/nonexistent-program"}, Env: []string{}, WorkDir: "/", Limit: lim, Seccomp: hx.AllowAll(), Handler: allowAll{}}).Run(context.Background())
+		out["good_status"], out["bad_status"] = int(good.Status), int(bad.Status)
+	}
+	done := make(chan struct{})
+	go func() {
+		runtime.LockOSThread()
+		if syscall.Gettid() == syscall.Getpid() {
+			// the process's initial thread never ends: do the work on another one, keeping this one occupied meanwhile
+			inner := make(chan struct{})
+			go func() {
+				runtime.LockOSThread()
+				work(inner)
+				runtime.UnlockOSThread()
+			}()
+			<-inner
+			runtime.UnlockOSThread()
+			close(done)
+			return
+		}
+		work(done)
+		runtime.UnlockOSThread()
+	}()
+	<-done
+	if _, bad := out["harness_err"]; bad {
+		return out
+	}
+	time.Sleep(100 * time.Millisecond)
+	perr := env.Ping()
+	out["ping_err"] = ""
+	if perr != nil {
+		out["ping_err"] = perr.Error()
+	}
+	null, _ := os.Open("/dev/null")
+	r := env.Execve(context.Background(), container.ExecveParam{Args: []string{"/vb/probe_target", "exit", "7"}, Env: []string{}, Files: []uintptr{null.Fd(), null.Fd(), null.Fd()}})
+	null.Close()
+	out["run_status"], out["run_exit"], out["run_error"] = int(r.Status), r.ExitStatus, r.Error
+	if perr == nil {
+		env.Destroy()
+	}
+	return out
+}
+
 func main() {
 	hx.Init()
 	scratch = os.Getenv("VERIF_SCRATCH")
@@ -235,6 +295,9 @@ func main() {
 	hx.Cases(func(c map[string]any) map[string]any {
 		if c["mode"] == "etxtbsy" {
 			return etxtbsy(int(hx.Int(c["iters"])), c["with_b"] == true)
+		}
+		if c["mode"] == "thread_retire" {
+			return threadRetire()
 		}
 		nenv := int(hx.Int(c["envs"]))
 		envs := []container.Environment{}
